@@ -176,10 +176,12 @@ Definition run_sexp (spec : bool) (e : sexp) : sexp :=
       if atom_is "code" k then
         match dec_q ast with
         | Some q =>
-            match compile q with
-            | Some c => let mine := SList (map enc_instr c) in
-                        if sexp_eqb mine (SList impl) then A "ok" else bad "code" mine
-            | None => A "notinfragment"
+            match compile q, option_map peephole_arr (compile_raw q) with
+            | Some c, Some c2 =>
+                        let mine := SList (map enc_instr c) in
+                        if negb (sexp_eqb mine (SList (map enc_instr c2))) then bad "model-peephole-variants-differ" mine
+                        else if sexp_eqb mine (SList impl) then A "ok" else bad "code" mine
+            | _, _ => A "notinfragment"
             end
         | None => A "undecodable"
         end
